@@ -7,6 +7,7 @@ CONSTANTS
   Offsets = {0, 1, 2, 3, 4}
   Sizes = {1, 2, 4}
   Kinds = {1, 2, 3, 4, 5, 6}
+  PPs = {2}
   MaxPre = 2
   MaxB = 3
   Widen = {FALSE, TRUE}
